@@ -1097,6 +1097,20 @@ func (self *Node) deleteChild(path Path) Node {
 		if err != nil {
 			return errNode(meta.ErrRead, "", err)
 		}
+		// the path kind must fit the key type (the raw form of a string key can equal the bytes of an integer key)
+		switch path.Type() {
+		case PathStrKey:
+			if kt != thrift.STRING {
+				return errNode(meta.ErrDismatchType, "", nil)
+			}
+		case PathIntKey:
+			if !kt.IsInt() {
+				return errNode(meta.ErrDismatchType, "", nil)
+			}
+		case PathBinKey:
+		default:
+			return errNode(meta.ErrDismatchType, "", nil)
+		}
 		id := path.ToRaw(kt)
 		if id == nil {
 			return errNode(meta.ErrInvalidParam, "", nil)
